@@ -33,7 +33,11 @@ LEVEL_TEXT = ('static analysis: (D1) copy-on-write lost-write rule over cnvlib/s
               'in that order; flasso / hmm* segment the whole array once; an unknown method raises; pool results are consumed through '
               "Executor.map; (D6) neither do_segmentation nor _do_segmentation may mutate the caller's array (effects fix-point). (D3b) the bins "
               'reaching the segmenter are those surviving every enabled filter, a null-coverage bin being one with the placeholder log2 or with '
-              'depth 0. Does not decide sortedness / non-overlap / probe sums of haar and HMM output, nor which bins the outlier filter drops.')
+              'depth 0. (D3c) transfer_fields as the whole-array methods call it -- a three-chromosome bin table with any edge chromosome wholly '
+              "filtered out -- leaves every segment inside its own chromosome's bin span with positive length (no stretch to another chromosome's"
+              " bins, no assertion failure); D3 also covers segments over antitarget / unnamed bins only (gene '-', not the previous segment's) "
+              'and D3b a bin whose weight equals min_weight (kept). Does not decide sortedness / non-overlap / probe sums of haar and HMM output,'
+              ' nor which bins the outlier filter drops.')
 TECHNIQUE = "copy-on-write lost-write lint + must-flow; index-kind lint; abstract interpretation of the aggregation; registry / effect rules"
 
 TF = "cnvlib.segmentation.transfer_fields"
@@ -544,6 +548,9 @@ def run(chk):
     d4b(chk, prog)
     d5(chk, prog)
     d6(chk, prog)
+    chk.clause("CLI", "the `segment` command line: method, threshold, --drop-low-coverage, --drop-outliers, -p and the VCF options reach do_segmentation as given")
+    from .. import cliglue
+    cliglue.check_segment(chk, prog)
 
 
 _S = "cnvlib/segmentation/__init__.py"
